@@ -2,6 +2,7 @@ package main
 
 import (
 	"fmt"
+	"strings"
 	"net/url"
 	"strconv"
 
@@ -49,7 +50,7 @@ func implURLG(f []string) string {
 		lastErrText = err.Error()
 		return "ok " + hxs(text) + " err parse-otp"
 	}
-	return "ok " + hxs(text) + " " + u2.Scheme + " " + u2.Host + " " + showURLParam(q)
+	return "ok " + hxs(text) + " " + hxs(u2.Scheme) + " " + hxs(u2.Host) + " " + showURLParam(q)
 }
 
 func implURLP(f []string) string {
@@ -79,4 +80,105 @@ func implURLP(f []string) string {
 	return "ok " + showURLParam(q)
 }
 
-func genC16(r *rng, n int, hostile bool) []string { return nil }
+
+var urlChars = []string{" ", "%", "/", "?", "#", "&", "=", "+", "@", ":", ";", ",", "é", "日本", "%41", "%zz", "%", "..", ".", "\x00", "\n", "\x7f", "\xff", "\xc3", "a", "Z", "0", "-", "_", "~", "!", "*", "'", "(", ")", "$", "\"", "<", ">", "{", "|", "\\", "^", "`"}
+
+func urlText(r *rng, noColon bool) string {
+	n := 1 + r.intn(6)
+	if r.intn(8) == 0 {
+		n = 20 + r.intn(44)
+	}
+	var b strings.Builder
+	for i := 0; i < n; i++ {
+		switch r.intn(3) {
+		case 0:
+			b.WriteString(pick(r, []string{"Example", "alice", "user@example.com", "My Co", "ACME", "corp", "x"}))
+		default:
+			b.WriteString(pick(r, urlChars))
+		}
+	}
+	s := b.String()
+	if noColon {
+		s = strings.ReplaceAll(s, ":", "")
+		if s == "" {
+			s = "I"
+		}
+	}
+	return s
+}
+
+func genC16(r *rng, n int, hostile bool) []string {
+	var out []string
+	out = append(out, "urlp NIL")
+	for i := 0; i < n; i++ {
+		switch r.intn(5) {
+		case 0, 1, 2:
+			kind := pick(r, []string{"totp", "hotp"})
+			iss, acc, sec := urlText(r, true), urlText(r, false), urlText(r, false)
+			if r.intn(4) == 0 {
+				sec = "GEZDGNBVGY3TQOJQGEZDGNBVGY3TQOJQ"
+			}
+			if r.intn(12) == 0 {
+				iss = pick(r, []string{"", "a:b", iss})
+			}
+			if r.intn(20) == 0 {
+				acc = ""
+			}
+			if r.intn(20) == 0 {
+				sec = ""
+			}
+			d := pick(r, []int{0, 1, 6, 6, 8, 9, 10, 11, 255, r.intn(256)})
+			a := pick(r, []int{0, 0, 1, 2, 2})
+			if hostile && r.intn(4) == 0 {
+				a = pick(r, []int{3, 255})
+			}
+			per := pick(r, []uint64{0, 1, 30, 30, 60, 1 << 31, uint64(r.intn(100000))})
+			if hostile && r.intn(4) == 0 {
+				per = pick(r, []uint64{1 << 62, 1<<63 - 1, 1 << 63, 1<<64 - 1})
+			}
+			out = append(out, fmt.Sprintf("urlg %s %s %s %s %d %d %d", kind, hxs(iss), hxs(acc), hxs(sec), d, a, per))
+		default:
+			// parse-only: otpauth://TYPE/LABEL?query with adversarial numbers
+			typ := pick(r, []string{"totp", "hotp", "TOTP", "Hotp", "tOtP", "totp", "xotp", "totp2", ""})
+			scheme := pick(r, []string{"otpauth", "otpauth", "otpauth", "OTPAUTH", "otpauths", "http"})
+			label := pick(r, []string{"Iss:acc", "Iss%3Aacc", "Iss", "a:b:c", ":", "", "My%20Co:alice@x.com", "A/B:c", "bad%zz:x", "alice@example.com"})
+			num := func() string {
+				switch r.intn(10) {
+				case 0:
+					return pick(r, []string{"", "6", "8", "0", "255", "256", "262", "264", "1000", "-1", "-6", "+6", "06", " 6", "6 ", "6.0", "six", "4294967302", "18446744073709551622", "9223372036854775807", "9223372036854775808", "-9223372036854775808", "-9223372036854775809", "%36", "6%20"})
+				case 1:
+					return fmt.Sprintf("%d", int64(r.next()))
+				case 2:
+					return fmt.Sprintf("%d", r.next())
+				}
+				return fmt.Sprintf("%d", r.intn(300))
+			}
+			var kv []string
+			if r.intn(8) != 0 {
+				kv = append(kv, "secret="+pick(r, []string{"GEZDGNBVGY3TQOJQGEZDGNBVGY3TQOJQ", "ABC", "", "a%20b", "x+y"}))
+			}
+			if r.intn(3) != 0 {
+				kv = append(kv, "digits="+num())
+			}
+			if r.intn(3) != 0 {
+				kv = append(kv, "period="+num())
+			}
+			if r.intn(3) != 0 {
+				kv = append(kv, "algorithm="+pick(r, []string{"SHA1", "SHA256", "SHA512", "sha1", "Sha256", "SHA384", "", "MD5", "ſha1", "SHA1 ", "%53HA1"}))
+			}
+			if r.intn(4) == 0 {
+				kv = append(kv, pick(r, []string{"issuer=X", "digits=7", "a;b=c", "=v", "k", "%zz=1", "digits=%zz", "&", "period=45"}))
+			}
+			for j := len(kv) - 1; j > 0; j-- {
+				k := r.intn(j + 1)
+				kv[j], kv[k] = kv[k], kv[j]
+			}
+			raw := scheme + "://" + typ + "/" + label + "?" + strings.Join(kv, "&")
+			if r.intn(10) == 0 {
+				raw = scheme + "://" + typ + "/" + label
+			}
+			out = append(out, "urlp "+hxs(raw))
+		}
+	}
+	return out
+}
